@@ -99,6 +99,9 @@ def stepWhere (rpn : String) (rest : List String) : String :=
               | _, .ok kept => showIdList (idsOf kept)
               | _, .overflow => "err:overflow"
               | _, .unsupported => "SKIP"
+            let specStr := match Findings.badImage parts with
+              | some (st, j) => s!"BAD image-invariant partition@{st} column {j}"
+              | none => specStr
             let finding := Findings.classify fpNative parts e rows model spec
             showQOut model ++ "\t" ++ specStr ++ (if finding = "" then "" else "\t" ++ finding)
       | _, _, _ => "bad-op\tbad-op"
